@@ -4,6 +4,7 @@ import PfdlModel.Check
 import PfdlModel.ExprParse
 import PfdlModel.Surface
 import PfdlModel.Denter
+import PfdlModel.Syntax
 /-! Line protocol driver: one JSON case per input line, one JSON result per output line. -/
 open Lean Pfdl
 
@@ -392,6 +393,87 @@ def runDenter (j : Json) : Except String Json := do
   | some p => pure (Json.mkObj [("pattern", .str p)])
   | none => pure (Json.mkObj [("pattern", .null)])
 
+/-! statement-level parser (`PfdlModel.Syntax`) on the real token stream -/
+
+def kwOf (s : String) : Except String Pfdl.Syntax.Kw :=
+  match s with
+  | "Struct" => pure .struct | "Task" => pure .task | "In" => pure .in_ | "Out" => pure .out
+  | "Loop" => pure .loop | "While" => pure .while | "To" => pure .to | "Parallel" => pure .parallel
+  | "Condition" => pure .condition | "Passed" => pure .passed | "Failed" => pure .failed | "End" => pure .end_
+  | _ => jerr s!"keyword {s}"
+
+def synTokOf (j : Json) : Except String Pfdl.Syntax.Tok := do
+  let ty ← getStr (← field j "t")
+  let line ← getNat (← field j "l")
+  let str : Except String String := do getStr (← field j "s")
+  let k : Pfdl.Syntax.Tk ← match ty with
+    | "kw" => do pure (Pfdl.Syntax.Tk.kw (← kwOf (← str)))
+    | "up" => do pure (.up (← str))
+    | "lo" => do pure (.lo (← str))
+    | "prim" => do pure (.prim (← str))
+    | "colon" => pure .colon
+    | "dot" => pure .dot
+    | "lbr" => pure .lbr
+    | "rbr" => pure .rbr
+    | "int" => do pure (.int (← getNat (← field j "n")))
+    | "nl" => pure .nl
+    | "ind" => pure .ind
+    | "ded" => pure .ded
+    | "json" => do pure (.json (← str))
+    | "ex" => do pure (.ex (← tokOf (← field j "e")))
+    | _ => jerr s!"token type {ty}"
+  pure ⟨k, line⟩
+
+def natJson (n : Nat) : Json := Json.num (JsonNumber.fromNat n)
+
+def idxStr : Pfdl.Syntax.Idx → String
+  | .none => "[]"
+  | .int n => s!"[{n}]"
+  | .name x => s!"[{x}]"
+
+def varTyJson (v : Pfdl.Syntax.VarTy) : Json :=
+  let b := match v.base with | .prim s => s | .struct s => s
+  Json.mkObj [("base", .str b), ("prim", .bool (match v.base with | .prim _ => true | .struct _ => false)),
+    ("arr", match v.arr with | none => .null | some i => .str (idxStr i))]
+
+def typedJson (ds : List (String × Pfdl.Syntax.VarTy)) : Json :=
+  Json.arr (ds.map (fun (x, v) => Json.arr #[.str x, varTyJson v])).toArray
+
+def segsJson (root : String) (ss : List Pfdl.Syntax.Seg) : Json :=
+  Json.arr ((Json.str root) :: ss.flatMap (fun (s, a) =>
+    Json.str s :: (match a with | none => [] | some i => [Json.str (idxStr i)]))).toArray
+
+def synParamJson : Pfdl.Syntax.Param → Json
+  | .var x => .str x
+  | .path x ss => segsJson x ss
+  | .lit s j => Json.mkObj [("lit", .str s), ("json", .str j)]
+
+def synCallJson (k : String) (c : Pfdl.Syntax.Call) : Json :=
+  Json.mkObj [("k", .str k), ("name", .str c.name), ("ins", Json.arr (c.ins.map synParamJson).toArray),
+    ("outs", typedJson c.outs), ("line", natJson c.line)]
+
+partial def synStmtJson : Pfdl.Syntax.Stmt → Json
+  | .svc c => synCallJson "svc" c
+  | .call c => synCallJson "call" c
+  | .par cs l => Json.mkObj [("k", .str "par"), ("calls", Json.arr (cs.map (synCallJson "call")).toArray), ("line", natJson l)]
+  | .wloop e b l => Json.mkObj [("k", .str "wloop"), ("e", exprJson e), ("body", Json.arr (b.map synStmtJson).toArray), ("line", natJson l)]
+  | .cloop p v lim b l => Json.mkObj [("k", .str (if p then "ploop" else "cloop")), ("var", .str v),
+      ("limit", match lim with | .int n => natJson n | .path x ss => segsJson x ss),
+      ("body", Json.arr (b.map synStmtJson).toArray), ("line", natJson l)]
+  | .cond e p q l => Json.mkObj [("k", .str "cond"), ("e", exprJson e), ("passed", Json.arr (p.map synStmtJson).toArray),
+      ("failed", match q with | none => .null | some q => Json.arr (q.map synStmtJson).toArray), ("line", natJson l)]
+
+def synDefJson : Pfdl.Syntax.Def → Json
+  | .struct s => Json.mkObj [("def", .str "struct"), ("name", .str s.name), ("attrs", typedJson s.attrs), ("line", natJson s.line)]
+  | .task k => Json.mkObj [("def", .str "task"), ("name", .str k.name), ("ins", typedJson k.ins),
+      ("body", Json.arr (k.body.map synStmtJson).toArray), ("outs", Json.arr (k.outs.map Json.str).toArray), ("line", natJson k.line)]
+
+def runSyntax (j : Json) : Except String Json := do
+  let toks ← (← getArr (← field j "toks")).toList.mapM synTokOf
+  match Pfdl.Syntax.parse toks with
+  | some ds => pure (Json.mkObj [("ok", .bool true), ("defs", Json.arr (ds.map synDefJson).toArray)])
+  | none => pure (Json.mkObj [("ok", .bool false)])
+
 def handle (line : String) : String :=
   match Json.parse line with
   | .error e => (Json.mkObj [("error", .str s!"parse: {e}")]).compress
@@ -402,6 +484,7 @@ def handle (line : String) : String :=
       | "check" => runCheck j
       | "expr" => runExpr j
       | "denter" => runDenter j
+      | "syntax" => runSyntax j
       | _ => .error s!"unknown request kind {k}"
     match r with
     | .ok out => out.compress
